@@ -277,10 +277,15 @@ def judge_netcdf(ctx, s, r, wit):
             elif va.dtype.kind == "M":
                 same = va.shape == vb.shape and np.array_equal(va.astype("datetime64[ns]"), vb.astype("datetime64[ns]")) and a[k][1] == b[k][1]
             else:
-                same = a[k][1:] == b[k][1:] and np.array_equal(va, vb)
+                # integers: the netCDF-3 writer used when netCDF4 is absent stores int64 as int32 (values unchanged,
+                # it refuses values that do not fit); "identical coordinates and values" is judged on dims and values
+                same = a[k][1:3] == b[k][1:3] and np.array_equal(va, vb)
+                if va.dtype != vb.dtype:
+                    ctx.count(f"C15.netcdf_integer_width_changed({va.dtype}->{vb.dtype})")
             if not same:
                 ok = False
-                detail = {"variable": k}
+                detail = {"variable": k, "saved": [str(va.dtype), list(s.dataset[k].dims), va.reshape(-1)[:6]],
+                          "loaded": [str(vb.dtype), list(r.dataset[k].dims), vb.reshape(-1)[:6]]}
                 break
     ctx.check("C15.netcdf-roundtrip", bool(ok), wit, detail, key="C15:netcdf")
 
